@@ -11,6 +11,12 @@ Pipeline (spec/C05_Search.tla decides every verdict):
      representations (spec -> code replay: the heuristic vectors TLC emitted are the ones handed to
      AStarSearch); each returned Result is projected to abstract indices;
        - outcome not among the outcomes TLC enumerated for that configuration -> DRIFT;
+     besides stand-alone runs the histories include (a) interleaved conversions: two different
+     plain-MDP graphs are converted with from_mdp first, then both wrappers are searched, in both
+     orders; (b) the "relaxed" heuristic: heuristic_value lazily runs a nested AStarSearch /
+     BreadthFirstSearch on a relaxed copy (costs min(c,1)) of the graph given as a plain MDP - the
+     nested conversion happens while the outer search is running; every nested result is judged
+     like a stand-alone run on the relaxed graph;
   4. TLC, mode "judge": every distinct real outcome is one Return event; the clauses of the
      statement (Fails) are evaluated by the spec -> VIOLATION per failing clause;
   5. TLC, mode "trace": for a third (quick) / an eighth (thorough) of the runs the visit events
@@ -65,7 +71,7 @@ INVARIANT Emit
 INVARIANT RealRunSatisfiesC05
 """
 
-HKS = ("zero", "exact", "half", "custom")
+HKS = ("zero", "exact", "half", "custom")     # + "relaxed" (nested search) in three configurations
 DIST_KINDS = ("det", "dictdet", "dict1", "ulist", "utuple", "uset")
 LABEL_KINDS = ("int", "str", "tuple", "frozendict", "mixed")
 
@@ -76,6 +82,10 @@ def all_cfgs():
         for rnd in (0, 1):
             for hk in HKS:
                 cf.append(dict(alg="astar", tie=tie, rnd=rnd, hk=hk))
+    # heuristic = nested search on a relaxed copy of the graph, called lazily inside heuristic_value
+    cf.append(dict(alg="astar", tie="lifo", rnd=0, hk="relaxed"))
+    cf.append(dict(alg="astar", tie="fifo", rnd=0, hk="relaxed"))
+    cf.append(dict(alg="astar", tie="random", rnd=1, hk="relaxed"))
     for rnd in (0, 1):
         cf.append(dict(alg="bfs", tie="fifo", rnd=rnd, hk="zero"))
     return cf
@@ -87,7 +97,7 @@ def all_cfgs():
 def py_oracle(g):
     N, K = g["N"], g["K"]
 
-    def togo(unit):
+    def togo(unit, relaxed=False):
         d = [0 if g["goal"][s] else INF for s in range(N)]
         for _ in range(N + 1):
             changed = False
@@ -97,7 +107,7 @@ def py_oracle(g):
                 for a in range(K):
                     if g["avail"][s][a]:
                         t = g["nxt"][s][a] - 1
-                        c = 1 if unit else g["cost"][s][a]
+                        c = 1 if unit else (min(g["cost"][s][a], 1) if relaxed else g["cost"][s][a])
                         if d[t] < INF and c + d[t] < d[s]:
                             d[s] = c + d[t]
                             changed = True
@@ -116,7 +126,7 @@ def py_oracle(g):
                     t = g["nxt"][s][a] - 1
                     if frm[s] + g["cost"][s][a] < frm[t]:
                         frm[t] = frm[s] + g["cost"][s][a]
-    return {"togo": togo(False), "hops": togo(True), "from": frm}
+    return {"togo": togo(False), "hops": togo(True), "from": frm, "relaxed": togo(False, True)}
 
 
 def consistent_closure(g, h):
@@ -394,31 +404,13 @@ def slug(msg, n=6):
     return "-".join(words[:n])
 
 
-def run_real(g, cfg, h2, rep, seed, build_seed):
-    """One plan_on of the real planner; the Result projected to abstract (1-based) indices."""
-    from msdm.algorithms.search import AStarSearch, BreadthFirstSearch
-    rng = random.Random(build_seed)
-    mdp, sl, al, visits = build(g, rep, rng)
-    sidx = {l: i + 1 for i, l in enumerate(sl)}
-    aidx = {l: i + 1 for i, l in enumerate(al)}
-    out = {"kind": None, "path": [], "acts": [], "value": -1, "visited": [], "note": "", "visits": visits}
-    planner_name = "AStarSearch" if cfg["alg"] == "astar" else "BreadthFirstSearch"
+def _guarded(fn, planner_name, out):
+    """Run fn() under the CPU limit; exceptions become an "error" outcome in out.  Returns (ok, value)."""
     try:
-        randomized = cfg["rnd"] == 1 or (cfg["alg"] == "astar" and cfg["tie"] == "random")
-        if cfg["alg"] == "astar":
-            kw = dict(tie_breaking_strategy=cfg["tie"], randomize_action_order=bool(cfg["rnd"]))
-            if randomized:
-                kw["seed"] = seed
-            if not (cfg["hk"] == "zero" and build_seed % 2 == 0):       # every other zero run: the default heuristic
-                hv = {l: (-math.inf if h2[i] >= INF else -h2[i] / 2) for i, l in enumerate(sl)}
-                kw["heuristic_value"] = lambda s: hv[s]
-            planner = AStarSearch(**kw)
-        else:
-            planner = BreadthFirstSearch(seed=seed if randomized else None, randomize_action_order=bool(cfg["rnd"]))
         old = signal.signal(signal.SIGVTALRM, _alarm)
         signal.setitimer(signal.ITIMER_VIRTUAL, CPU_LIMIT_S if NONTERM["n"] < NONTERM_FAST else 0.3)
         try:
-            res = planner.plan_on(mdp)
+            return True, fn()
         finally:
             signal.setitimer(signal.ITIMER_VIRTUAL, 0)
             signal.signal(signal.SIGVTALRM, old)
@@ -426,18 +418,21 @@ def run_real(g, cfg, h2, rep, seed, build_seed):
         NONTERM["n"] += 1
         out.update(kind="error", site=f"{planner_name}.plan_on", exc="no-termination",
                    note=f"{type(e).__name__}: {e}"[:200])
-        return out
     except Exception as e:                                   # noqa: BLE001 - judged as a clause failure
         site = call_site(e.__traceback__) or f"{planner_name}.plan_on"
         exc = type(e).__name__
         if isinstance(e, AssertionError):
             exc += "-" + slug(e)
         out.update(kind="error", site=site, exc=exc, note=f"{type(e).__name__}: {e}"[:300])
-        return out
+    return False, None
+
+
+def project(res, alg, sidx, aidx, out):
+    """Result of plan_on -> abstract (1-based) path, action of the returned policy at every path state,
+    path_value, visited."""
     if res is None:
         out["kind"] = "none"
         return out
-    # projection of the Result: path, action of the returned policy at every path state, path_value
     out["kind"] = "path"
     try:
         path = list(res.path)
@@ -451,7 +446,7 @@ def run_real(g, cfg, h2, rep, seed, build_seed):
                 acts.append(0)
                 out["note"] = f"policy at path state failed: {type(e).__name__}: {e}"[:200]
         out["acts"] = acts
-        if cfg["alg"] == "astar":
+        if alg == "astar":
             v = res.path_value
             fv = float(v)
             out["value"] = int(fv) if fv.is_integer() and abs(fv) < INF else -999
@@ -464,6 +459,111 @@ def run_real(g, cfg, h2, rep, seed, build_seed):
     except Exception as e:                                   # noqa: BLE001
         out["visited"] = [-1]
         out["note"] += f" visited not readable: {type(e).__name__}"
+    return out
+
+
+def relaxed_copy(g, start):
+    """The relaxed problem behind the "relaxed" heuristic: same graph, costs min(c, 1), given start."""
+    return dict(N=g["N"], K=g["K"], avail=g["avail"], nxt=g["nxt"], goal=g["goal"], start=start,
+                cost=[[min(c, 1) for c in row] for row in g["cost"]], hc=[0] * g["N"], cfgs=[])
+
+
+def nested_heuristic(g, sl, build_seed, sink):
+    """heuristic_value(s) = - cost of the plan a *nested* search finds on the relaxed copy of the graph,
+    given as a plain MDP (so the nested plan_on converts it with from_mdp while the outer search is
+    running).  Every nested result is appended to sink and judged like a stand-alone run."""
+    from msdm.algorithms.search import AStarSearch, BreadthFirstSearch
+    sidx0 = {l: i for i, l in enumerate(sl)}
+    unit = all(g["cost"][s][a] >= 1 for s in range(g["N"]) for a in range(g["K"])
+               if g["avail"][s][a] and not g["goal"][s])
+    use_bfs = unit and build_seed % 3 == 0               # all relaxed costs are 1: steps = cost
+    memo = {}
+
+    def hv(s):
+        i = sidx0[s]
+        if i in memo:
+            return memo[i]
+        gr = relaxed_copy(g, i + 1)
+        rng = random.Random(build_seed * 31 + i)
+        rp = dict(container=rng.choice(["class", "quick"]), init=rng.choice(DIST_KINDS), trans=rng.choice(DIST_KINDS),
+                  labels=rng.choice(LABEL_KINDS), alabels=rng.choice(LABEL_KINDS), actions_as="tuple", reward_as="int")
+        mdp, sl2, al2, _ = build(gr, rp, rng)
+        alg = "bfs" if use_bfs else "astar"
+        out = {"kind": None, "path": [], "acts": [], "value": -1, "visited": [], "note": "nested search inside heuristic_value", "visits": []}
+        planner = BreadthFirstSearch() if use_bfs else AStarSearch()
+        try:
+            res = planner.plan_on(mdp)
+        except (_Timeout, Budget):
+            raise
+        except Exception as e:                               # noqa: BLE001
+            exc = type(e).__name__ + ("-" + slug(e) if isinstance(e, AssertionError) else "")
+            out.update(kind="error", site=call_site(e.__traceback__) or type(planner).__name__ + ".plan_on", exc=exc,
+                       note=f"nested search inside heuristic_value: {type(e).__name__}: {e}"[:300])
+            sink.append({"derived": gr, "alg": alg, "res": out, "rep": rp})
+            raise
+        project(res, alg, {l: k + 1 for k, l in enumerate(sl2)}, {l: k + 1 for k, l in enumerate(al2)}, out)
+        sink.append({"derived": gr, "alg": alg, "res": out, "rep": rp})
+        if res is None:
+            h = -math.inf
+        elif use_bfs:
+            h = -(len(res.path) - 1)
+        else:
+            h = -res.path_value
+        memo[i] = h
+        return h
+    return hv
+
+
+class Prepared:
+    """One real execution, split so that several conversions can precede the searches."""
+
+    def __init__(self, g, cfg, h2, rep, seed, build_seed, preconvert=False):
+        from msdm.algorithms.search import AStarSearch, BreadthFirstSearch
+        from msdm.core.mdp.deterministic_shortest_path import DeterministicShortestPathProblem
+        self.cfg = cfg
+        rng = random.Random(build_seed)
+        mdp, sl, al, visits = build(g, rep, rng)
+        self.sidx = {l: i + 1 for i, l in enumerate(sl)}
+        self.aidx = {l: i + 1 for i, l in enumerate(al)}
+        self.nested = []
+        self.out = {"kind": None, "path": [], "acts": [], "value": -1, "visited": [], "note": "", "visits": visits}
+        self.name = "AStarSearch" if cfg["alg"] == "astar" else "BreadthFirstSearch"
+        self.target = mdp
+        self.planner = None
+
+        def make():
+            randomized = cfg["rnd"] == 1 or (cfg["alg"] == "astar" and cfg["tie"] == "random")
+            if cfg["alg"] == "astar":
+                kw = dict(tie_breaking_strategy=cfg["tie"], randomize_action_order=bool(cfg["rnd"]))
+                if randomized:
+                    kw["seed"] = seed
+                if cfg["hk"] == "relaxed":
+                    kw["heuristic_value"] = nested_heuristic(g, sl, build_seed, self.nested)
+                elif not (cfg["hk"] == "zero" and build_seed % 2 == 0):   # every other zero run: the default heuristic
+                    hv = {l: (-math.inf if h2[i] >= INF else -h2[i] / 2) for i, l in enumerate(sl)}
+                    kw["heuristic_value"] = lambda s: hv[s]
+                self.planner = AStarSearch(**kw)
+            else:
+                self.planner = BreadthFirstSearch(seed=seed if randomized else None, randomize_action_order=bool(cfg["rnd"]))
+            if preconvert:     # the conversion is done now, the search later (other conversions in between)
+                self.target = DeterministicShortestPathProblem.from_mdp(mdp)
+        _guarded(make, self.name, self.out)
+
+    def execute(self):
+        if self.out["kind"] == "error":
+            return self.out
+        ok, res = _guarded(lambda: self.planner.plan_on(self.target), self.name, self.out)
+        if ok:
+            project(res, self.cfg["alg"], self.sidx, self.aidx, self.out)
+        return self.out
+
+
+def run_real(g, cfg, h2, rep, seed, build_seed, nested_sink=None):
+    """One plan_on of the real planner; the Result projected to abstract (1-based) indices."""
+    p = Prepared(g, cfg, h2, rep, seed, build_seed)
+    out = p.execute()
+    if nested_sink is not None:
+        nested_sink.extend(p.nested)
     return out
 
 
@@ -505,6 +605,8 @@ def mc(ctx, graphs, tag="mc"):
         for k in ("togo", "hops", "from"):
             if list(o[k]) != po[k]:
                 raise TLCFailure(f"TLA+ oracle and Python oracle disagree on graph {i} ({k}): {o[k]} vs {po[k]}\n{g}")
+        if list(o["hz"]["relaxed"]) != [INF if x >= INF else 2 * x for x in po["relaxed"]]:
+            raise TLCFailure(f"TLA+ and Python disagree on the relaxed heuristic of graph {i}")
         if list(o["hz"]["custom"]) != g["hc"]:
             raise TLCFailure(f"custom heuristic of graph {i} not read back identically")
         ctx.count("oracle_crosschecks")
@@ -603,23 +705,70 @@ def plan_runs(rng, graphs, tier):
                 seeds = [0] + [rng.randrange(1, 2 ** 31) for _ in range(seeds_per_cfg - 1)]
             for sd in seeds:
                 plan.append((i, c, rand_rep(rng), sd, rng.randrange(2 ** 30)))
+    # interleaved conversions: two different plain MDPs are converted with from_mdp first, then both
+    # wrappers are searched, in both orders
+    n_pairs = 2 if tier == "quick" else 3
+    for i in range(1, len(graphs)):
+        for _ in range(n_pairs):
+            legs = []
+            for gi in (i, i + 1):
+                g = graphs[gi - 1]
+                c = rng.randrange(len(g["cfgs"])) + 1
+                cfg = g["cfgs"][c - 1]
+                randomized = cfg["rnd"] == 1 or (cfg["alg"] == "astar" and cfg["tie"] == "random")
+                rp = rand_rep(rng)
+                while rp["container"] not in ("class", "quick"):
+                    rp = rand_rep(rng)
+                legs.append((gi, c, rp, rng.randrange(2 ** 31) if randomized else None, rng.randrange(2 ** 30)))
+            if rng.random() < 0.5:         # same label kinds: the two problems share (part of) their state labels
+                legs[1] = (legs[1][0], legs[1][1], dict(legs[1][2], labels=legs[0][2]["labels"], alabels=legs[0][2]["alabels"]),
+                           legs[1][3], legs[1][4])
+            for order in ("ab", "ba"):
+                plan.append(("pair", legs[0], legs[1], order))
     return plan
 
 
 def judge_cases(ctx, graphs, plan, *, tamper=None, quiet_counts=False, trace_every=0):
     orc, outcomes = mc(ctx, graphs)
     runs = []
-    for (i, c, rep, sd, bs) in plan:
-        g = graphs[i - 1]
-        cfg = g["cfgs"][c - 1]
-        h2 = list(orc[i]["hz"][cfg["hk"]])
+    nested = []          # nested searches run inside heuristic_value: judged like stand-alone runs
+    for job in plan:
         if NONTERM["n"] >= NONTERM_STOP:
             ctx.skip("not run: non-termination already reported %d times" % NONTERM_STOP)
             continue
-        real = run_real(g, cfg, h2, rep, sd, bs)
+        if job[0] == "pair":
+            _, la, lb, order = job
+            preps = []
+            for (i, c, rep, sd, bs) in (la, lb):
+                g = graphs[i - 1]
+                cfg = g["cfgs"][c - 1]
+                h2 = list(orc[i]["hz"][cfg["hk"]])
+                preps.append((Prepared(g, cfg, h2, rep, sd, bs, preconvert=True), i, c, cfg, rep, sd, bs, h2))
+            seq = preps if order == "ab" else preps[::-1]
+            for pos, (p, i, c, cfg, rep, sd, bs, h2) in enumerate(seq):
+                real = p.execute()
+                ctx.evaluations += 1
+                ctx.count("runs_after_interleaved_conversions")
+                other = seq[1 - pos]
+                scen = {"kind": "pair", "order": order, "this_leg": "a" if p is preps[0][0] else "b",
+                        "partner": {"graph": {k: graphs[other[1] - 1][k] for k in ("N", "K", "avail", "nxt", "cost", "goal", "start", "hc")},
+                                    "cfg": other[3], "rep": other[4], "seed": other[5], "build_seed": other[6]}}
+                runs.append({"gid": i, "cid": c, "alg": cfg["alg"], "cfg": cfg, "rep": rep, "seed": sd, "build_seed": bs,
+                             "h2": h2, "res": real, "scenario": scen})
+                for nr in p.nested:
+                    nested.append(dict(nr, outer=len(runs) - 1))
+            continue
+        (i, c, rep, sd, bs) = job
+        g = graphs[i - 1]
+        cfg = g["cfgs"][c - 1]
+        h2 = list(orc[i]["hz"][cfg["hk"]])
+        sink = []
+        real = run_real(g, cfg, h2, rep, sd, bs, nested_sink=sink)
         ctx.evaluations += 1
         runs.append({"gid": i, "cid": c, "alg": cfg["alg"], "cfg": cfg, "rep": rep, "seed": sd, "build_seed": bs,
                      "h2": h2, "res": real})
+        for nr in sink:
+            nested.append(dict(nr, outer=len(runs) - 1))
         if sd is not None and len(runs) % 7 == 0 and real["kind"] != "error":
             # DRIFT-level only (reproducibility is C13's clause): the same seed gives the same outcome
             # whatever the global generator holds
@@ -642,7 +791,20 @@ def judge_cases(ctx, graphs, plan, *, tamper=None, quiet_counts=False, trace_eve
                          "h2": h2, "res": real2})
     if tamper is not None:
         tamper(runs)
-    verdicts = judge(ctx, graphs, runs)
+    # nested searches: their (relaxed) graphs are appended to the judged batch
+    jgraphs, where = list(graphs), {}
+    nruns = []
+    for nr in nested:
+        key = digest(graph_for_tlc(nr["derived"]))
+        if key not in where:
+            jgraphs.append(nr["derived"])
+            where[key] = len(jgraphs)
+        nruns.append({"gid": where[key], "alg": nr["alg"], "res": nr["res"], "outer": nr["outer"], "rep": nr["rep"]})
+    ctx.evaluations += len(nruns)
+    if nruns and not quiet_counts:
+        ctx.count("nested_searches_inside_heuristic_value", len(nruns))
+    all_verdicts = judge(ctx, jgraphs, runs + nruns)
+    verdicts = all_verdicts[:len(runs)]
     if trace_every:
         validate_traces(ctx, graphs, [r for k, r in enumerate(runs) if k % trace_every == 0])
     n_viol = 0
@@ -660,6 +822,8 @@ def judge_cases(ctx, graphs, plan, *, tamper=None, quiet_counts=False, trace_eve
         case = {"graph": {k: g[k] for k in ("N", "K", "avail", "nxt", "cost", "goal", "start", "hc")},
                 "cfg": cfg, "rep": r["rep"], "seed": r["seed"], "build_seed": r["build_seed"], "h2": r["h2"],
                 "real": {k: v for k, v in real.items() if k != "visits"}}
+        if "scenario" in r:
+            case["scenario"] = r["scenario"]
         for clause in fails:
             n_viol += 1
             if clause == "returns":
@@ -702,6 +866,28 @@ def judge_cases(ctx, graphs, plan, *, tamper=None, quiet_counts=False, trace_eve
                 ctx.sample({"graph": case["graph"], "cfg": cfg, "rep": r["rep"], "seed": r["seed"],
                             "heuristic_half_units": r["h2"], "real": [real["path"], real["acts"], real["value"]],
                             "togo": o["togo"], "hops": o["hops"]})
+    for nr, (fails, shape) in zip(nruns, all_verdicts[len(runs):]):
+        r = runs[nr["outer"]]
+        g = graphs[r["gid"] - 1]
+        planner = "AStarSearch" if nr["alg"] == "astar" else "BreadthFirstSearch"
+        case = {"graph": {k: g[k] for k in ("N", "K", "avail", "nxt", "cost", "goal", "start", "hc")},
+                "cfg": r["cfg"], "rep": r["rep"], "seed": r["seed"], "build_seed": r["build_seed"], "h2": r["h2"],
+                "nested": {"relaxed_start": nr["res"] and jgraphs[nr["gid"] - 1]["start"], "rep": nr["rep"],
+                           "real": {k: v for k, v in nr["res"].items() if k != "visits"}}}
+        if "scenario" in r:
+            case["scenario"] = r["scenario"]
+        for clause in fails:
+            real = nr["res"]
+            if clause == "returns":
+                site, cl = real.get("site", planner + ".plan_on"), "raises-" + real.get("exc", "error")
+            else:
+                site, cl = planner, clause
+            ctx.violation(f"C05:{site}:{cl}:{shape}",
+                          f"nested {planner} (called inside heuristic_value on the relaxed copy, start {jgraphs[nr['gid'] - 1]['start']}) "
+                          f"clause '{clause}': kind={real['kind']} path={real['path']} acts={real['acts']} "
+                          f"value={real.get('raw_value', real['value'])} {real.get('note', '')}", case)
+        if not fails:
+            ctx.validated += 1
     n_err = sum(1 for olist in outcomes.values() for o in olist if o["phase"] == "error")
     if n_err:
         raise TLCFailure(f"the reference machine reached an assertion failure in {n_err} outcomes")
@@ -787,8 +973,17 @@ def worse_valid_path(g, alg):
 def replay(ctx, case):
     g = dict(case["graph"])
     g["cfgs"] = [case["cfg"]]
-    plan = [(1, 1, case["rep"], case["seed"], case["build_seed"])]
-    judge_cases(ctx, [g], plan, trace_every=1)
+    leg = (1, 1, case["rep"], case["seed"], case["build_seed"])
+    sc = case.get("scenario")
+    if sc and sc["kind"] == "pair":
+        pt = sc["partner"]
+        g2 = dict(pt["graph"])
+        g2["cfgs"] = [pt["cfg"]]
+        leg2 = (2, 1, pt["rep"], pt["seed"], pt["build_seed"])
+        a, b = (leg, leg2) if sc["this_leg"] == "a" else (leg2, leg)
+        judge_cases(ctx, [g, g2], [("pair", a, b, sc["order"])], trace_every=1)
+    else:
+        judge_cases(ctx, [g], [leg], trace_every=1)
 
 
 def selftest(ctx):
